@@ -355,6 +355,9 @@ pub struct CaCertSpec {
     pub ca_issuer: String,
     /// URI of the issuer's CRL (ignored for TA).
     pub crl_uri: String,
+    /// Use one and the same name as issuer and subject name (names play no
+    /// role in RPKI validation; only key identifiers do).
+    pub same_name: bool,
 }
 
 fn set_res(cert: &mut TbsCert, res: &Res, inherit: bool) {
@@ -387,11 +390,15 @@ pub fn make_ca_cert(spec: &CaCertSpec) -> Bytes {
     let signer = SimSigner::new();
     let pubkey = pool().rsa_pub(spec.subject_key).clone();
     let issuer_pub = pool().rsa_pub(spec.issuer.claim).clone();
+    let (issuer_name, subject_name) = if spec.same_name {
+        let name = pool().rsa_pub(0).to_subject_name();
+        (name.clone(), Some(name))
+    } else { (issuer_pub.to_subject_name(), None) };
     let mut cert = TbsCert::new(
         Serial::from(spec.serial),
-        issuer_pub.to_subject_name(),
+        issuer_name,
         validity(spec.not_before, spec.not_after),
-        None,
+        subject_name,
         pubkey,
         KeyUsage::Ca,
         if spec.overclaim_trim { Overclaim::Trim } else { Overclaim::Refuse },
